@@ -1,7 +1,6 @@
 package c10
 
 import (
-	"time"
 	"context"
 	"encoding/json"
 	"fmt"
@@ -10,6 +9,7 @@ import (
 	"strings"
 	"sync"
 	"sync/atomic"
+	"time"
 
 	eventbus "github.com/jilio/ebu"
 	"github.com/jilio/ebu/stores/sqlite"
